@@ -67,8 +67,33 @@ impl C11 {
         };
         let vp = b.server.plan[1].clone();
         let vr = b.server.plan[2].clone();
-        b.server.plan[1] = beh(op, &vp, vec![0xff, 0xff, 0xff, 0xff, 0x44, 0x05, 0x00]);
-        b.server.plan[2] = beh(or, &vr, vec![0xff, 0xff, 0xff, 0xff, 0x45, 0x09]);
+        // a malformed section reply: cut short (PacketUnderflow), or - Source engines only, GoldSrc has no such
+        // framing - a compressed split answer that is not bzip2 (Decompress) / that declares 5 MiB (Decompress)
+        let mut cx_count_variants = 0u64;
+        let mut malformed = |rng: &mut crate::core::rng::Rng, short: Vec<u8>| -> Vec<u8> {
+            let variant = if matches!(engine, Engine::Source(_)) { rng.below(3) } else { 0 };
+            if variant > 0 {
+                cx_count_variants += 1;
+            }
+            match variant {
+                0 => short,
+                v => {
+                    let mut d = vec![0xfe, 0xff, 0xff, 0xff];
+                    d.extend((rng.u32() | 0x8000_0000).to_le_bytes());
+                    d.extend([1u8, 0u8]);
+                    d.extend(1248u16.to_le_bytes());
+                    d.extend((if v == 1 { 100u32 } else { 5 << 20 }).to_le_bytes());
+                    d.extend(rng.u32().to_le_bytes());
+                    d.extend(b"this is not a bzip2 stream at all");
+                    d
+                }
+            }
+        };
+        let mp = malformed(&mut cx.rng, vec![0xff, 0xff, 0xff, 0xff, 0x44, 0x05, 0x00]);
+        let mr = malformed(&mut cx.rng, vec![0xff, 0xff, 0xff, 0xff, 0x45, 0x09]);
+        b.server.plan[1] = beh(op, &vp, mp);
+        b.server.plan[2] = beh(or, &vr, mr);
+        cx.count_n("valve-malformed-replies-of-the-compressed-kind", cx_count_variants);
         let server = std::mem::replace(&mut b.server, A2sServer::new(vec![], vec![], vec![]));
         let gs = GatheringSettings { players: tp, rules: tr, check_app_id: check };
         let retries = cx.rng.below(2) as usize;
